@@ -1119,7 +1119,7 @@ def scan_trusted(text):
                     break
             continue
         if "assume_specification" in code:
-            mm = re.search(r"\[([^\]]+)\]", code)
+            mm = re.search(r"\[\s*(.+?)\s*\]\s*\(", code) or re.search(r"\[([^\]]+)\]", code)
             res.append("assume_specification: %s" % (mm.group(1).strip() if mm else code.strip()[:60]))
             continue
         mm = re.search(r"uninterp\s+spec\s+fn\s+([A-Za-z_0-9]+)", code)
